@@ -17,6 +17,36 @@ fn init(loops: usize, max_size: usize, min_size: usize, keep_alive_ns: u64) {
     EventLoops::init(&cfg);
 }
 
+/// What the runtime's own threads (named `open-coroutine-...`) did during 400 ms, read from /proc/self/task: for each thread
+/// (voluntary context switches, CPU time in ms). An idle but healthy event loop wakes every 10 ms and burns next to nothing;
+/// a loop thread that is wedged either spins (no voluntary switches, ~400 ms of CPU) or never wakes (neither).
+fn loop_thread_activity() -> Vec<(u64, u64)> {
+    fn sample() -> std::collections::HashMap<String, (u64, u64)> {
+        let mut m = std::collections::HashMap::new();
+        if let Ok(rd) = std::fs::read_dir("/proc/self/task") {
+            for e in rd.flatten() {
+                let p = e.path();
+                let comm = std::fs::read_to_string(p.join("comm")).unwrap_or_default();
+                if !comm.starts_with("open-coroutine-") {
+                    continue;
+                }
+                let st = std::fs::read_to_string(p.join("status")).unwrap_or_default();
+                let v = st.lines().find_map(|l| l.strip_prefix("voluntary_ctxt_switches:")).and_then(|x| x.trim().parse::<u64>().ok()).unwrap_or(0);
+                // utime + stime are fields 14 and 15 of stat (after the parenthesised name), in clock ticks of 10 ms
+                let stat = std::fs::read_to_string(p.join("stat")).unwrap_or_default();
+                let rest: Vec<&str> = stat.rsplit(')').next().unwrap_or("").split_whitespace().collect();
+                let ticks = rest.get(11).and_then(|x| x.parse::<u64>().ok()).unwrap_or(0) + rest.get(12).and_then(|x| x.parse::<u64>().ok()).unwrap_or(0);
+                m.insert(e.file_name().to_string_lossy().to_string(), (v, ticks * 10));
+            }
+        }
+        m
+    }
+    let a = sample();
+    std::thread::sleep(Duration::from_millis(400));
+    let b = sample();
+    a.iter().filter_map(|(k, v)| b.get(k).map(|w| (w.0.saturating_sub(v.0), w.1.saturating_sub(v.1)))).collect()
+}
+
 fn cpu_clock_of_self() -> u64 {
     let mut c: libc::clockid_t = 0;
     unsafe { libc::pthread_getcpuclockid(libc::pthread_self(), &mut c) };
@@ -46,6 +76,8 @@ struct SubmitSlot {
 }
 
 // ====================================================================== C01
+static REJECTED: Mutex<Vec<usize>> = Mutex::new(Vec::new());
+
 fn c01(seed: u64, case: u64, out: &Out) {
     let mut rng = Rng::for_case(seed ^ 0xC01, case);
     let loops = *rng.pick(&[1usize, 2, 4, 8]);
@@ -119,6 +151,10 @@ fn c01(seed: u64, case: u64, out: &Out) {
                     Some(prio),
                 );
                 slots[s].in_call.store(0, Ordering::SeqCst);
+                if h.id().is_err() {
+                    // the runtime refused the task (an error handle): it was never accepted, so it is not "lost"
+                    REJECTED.lock().unwrap().push(uid);
+                }
                 mine.push(h);
             }
             t_first.fetch_max(mono_ns(), Ordering::SeqCst);
@@ -198,12 +234,13 @@ fn c01(seed: u64, case: u64, out: &Out) {
         std::thread::sleep(Duration::from_millis(50));
     }
     std::thread::sleep(Duration::from_millis(100));
-    let never: Vec<usize> = counts.iter().enumerate().filter(|(_, c)| c.load(Ordering::SeqCst) == 0).map(|(i, _)| i).collect();
+    let rejected = REJECTED.lock().unwrap().clone();
+    let never: Vec<usize> = counts.iter().enumerate().filter(|(i, c)| c.load(Ordering::SeqCst) == 0 && !rejected.contains(i)).map(|(i, _)| i).collect();
     let twice: Vec<usize> = counts.iter().enumerate().filter(|(_, c)| c.load(Ordering::SeqCst) > 1).map(|(i, _)| i).collect();
     let nthreads = exec_threads.lock().unwrap().len();
     let probes_ran = probe_runs.load(Ordering::SeqCst);
     let overlap = submitters >= 2;
-    let obs = jobj! {"submitted" => total, "executed_once" => total - never.len() - twice.len(), "never_executed" => never.len(), "executed_more_than_once" => twice.len(),
+    let obs = jobj! {"submitted" => total, "executed_once" => total - never.len() - twice.len(), "never_executed" => never.len(), "submissions_refused_by_the_runtime" => rejected.len(), "executed_more_than_once" => twice.len(),
         "loop_threads_that_ran_tasks(sampled)" => nthreads, "heartbeat_probes_sent" => probes_sent, "heartbeat_probes_executed" => probes_ran, "burst_exceeds_local_capacity" => per > 256};
     let fp = format!("{loops}|{submitters}|{per}|{prio_mix}|{body:?}|{max_size}");
     let nontrivial = overlap && per > 256;
@@ -216,12 +253,28 @@ fn c01(seed: u64, case: u64, out: &Out) {
             std::thread::sleep(Duration::from_secs(120));
         }
         let alive = probes_sent > 0 && probes_ran * 2 >= probes_sent.saturating_sub(2);
-        let kind = if alive { "task-stranded-while-runtime-keeps-scheduling" } else { "runtime-stopped-scheduling-with-tasks-outstanding" };
-        // a stalled runtime is attributed by what makes worker coroutines migrate between loop threads: several loops sharing one ready
+        // are the event-loop threads themselves still going round (an idle loop wakes every 10 ms), or are they stuck?
+        let activity = loop_thread_activity();
+        let loop_threads = activity.len();
+        let cycling = activity.iter().filter(|a| a.0 >= 5 && a.1 < 200).count();
+        // a wedged loop thread spins: it never goes to sleep and burns (nearly) all of the 400 ms although no task is executing any more
+        let wedged = activity.iter().filter(|a| a.0 == 0 && a.1 >= 300).count();
+        let kind = if wedged > 0 && wedged == loop_threads {
+            "runtime-stopped-scheduling-with-tasks-outstanding"
+        } else if wedged > 0 {
+            "loop-thread-wedged-with-a-task-in-hand"
+        } else if alive {
+            "task-stranded-while-runtime-keeps-scheduling"
+        } else if loop_threads > 0 && cycling == loop_threads {
+            "tasks-ignored-while-every-loop-thread-keeps-cycling"
+        } else {
+            "runtime-stopped-scheduling-with-tasks-outstanding"
+        };
+        // wedged loop threads are attributed by what makes parked coroutines migrate between loop threads: several loops sharing one ready
         // queue (idle workers park themselves too, so the task bodies need not suspend for a parked coroutine to be stolen)
-        let ctx = if !alive && loops > 1 { "multi-loop" } else if submitters > 1 { "multi-submitter" } else { "single-submitter" };
+        let ctx = if wedged > 0 && loops > 1 { "multi-loop" } else if wedged > 0 { "single-loop" } else if submitters > 1 { "multi-submitter" } else { "single-submitter" };
         out.end(case, Verdict::Violated, &format!("C01/{kind}/{ctx}"), true, &fp, obs,
-            &format!("{} of {total} tasks never ran (e.g. uid {}), no new execution for 3 s; heartbeat probes executed {probes_ran}/{probes_sent}", never.len(), never[0]));
+            &format!("{} of {total} tasks never ran (e.g. uid {}), no new execution for 3 s; heartbeat probes executed {probes_ran}/{probes_sent}; {cycling} of {loop_threads} event-loop threads still wake up regularly, {wedged} spin without ever sleeping (per thread in 400 ms: voluntary switches / CPU ms {activity:?})", never.len(), never[0]));
     } else {
         out.end(case, Verdict::Held, "", nontrivial, &fp, obs, "");
     }
